@@ -62,6 +62,23 @@ type TermCtx struct {
 	declared map[string]Sort   // declared constants
 	n        int
 	Threshold int
+	// digitOf: BV terms known to be ASCII digit characters, with the Int term of
+	// their digit value (0..9). Lets the engine avoid BV<->Int round trips.
+	digitOf map[string]*Term
+}
+
+// MarkDigit records that the BV term t is the character '0'+d.
+func (c *TermCtx) MarkDigit(t *Term, d *Term) {
+	if c.digitOf == nil {
+		c.digitOf = map[string]*Term{}
+	}
+	c.digitOf[t.S] = d
+}
+
+// DigitOf returns the digit value term if t is a known ASCII digit character.
+func (c *TermCtx) DigitOf(t *Term) (*Term, bool) {
+	d, ok := c.digitOf[t.S]
+	return d, ok
 }
 
 func NewTermCtx() *TermCtx {
